@@ -62,7 +62,16 @@ func genP2Deviations(g *core.Gen, cfg scen.P2Config, full bool, D int, mk func(d
 
 func c01Gen(g *core.Gen, emit func(*p2Case)) {
 	mk := func(cfg scen.P2Config, rg int) func(d []scen.Dmg) *p2Case {
-		return func(d []scen.Dmg) *p2Case { return &p2Case{Cfg: cfg, Dmg: d, G: rg} }
+		return func(d []scen.Dmg) *p2Case {
+			// the double-check option is on whenever recovery files were lost (non-contiguous survivors) and for every other scenario
+			dc := len(d)%2 == 1
+			for _, x := range d {
+				if x.Op == "delrec" {
+					dc = true
+				}
+			}
+			return &p2Case{Cfg: cfg, Dmg: d, G: rg, DoubleCheck: dc}
+		}
 	}
 	wrap := &core.Gen{}
 	_ = wrap
